@@ -466,9 +466,10 @@ func run(s Sess, afterOpen func()) mon.Result {
 			}
 			oerr = nd.AcquirePriv(name)
 		case "command":
-			_, oerr = nd.SendCommand(op.Lines[0])
+			// oo: a level option shared with config calls; it has no meaning for a command call
+			_, oerr = nd.SendCommand(op.Lines[0], oo...)
 		case "commands":
-			_, oerr = nd.SendCommands(op.Lines)
+			_, oerr = nd.SendCommands(op.Lines, oo...)
 		case "config":
 			_, oerr = nd.SendConfig(strings.Join(op.Lines, "\n"), oo...)
 		case "configs":
@@ -701,6 +702,24 @@ func run(s Sess, afterOpen func()) mon.Result {
 				}
 			}
 		}
+		// change-window observations
+		if isCommand && len(oo) > 0 {
+			obs["command_calls_carrying_a_level_option"]++
+			if cached != s.Levels[s.Default].Name {
+				obs["command_calls_carrying_a_level_option_with_cached_level_not_default"]++
+				nontrivial = true
+			}
+			if oi == 0 {
+				obs["command_calls_carrying_a_level_option_first_call_of_session"]++
+			}
+			if op.Unknown != "" {
+				obs["command_calls_carrying_an_unknown_level_option"]++
+			}
+		}
+		if (op.Kind == "config" || op.Kind == "configs") && len(oo) == 0 && cached != tname && strings.HasPrefix(cached, "configuration") {
+			obs["config_calls_without_level_right_after_another_configuration_flavour"]++
+			nontrivial = true
+		}
 		// flavours: levels that share one prompt; only the device's own mode tells them apart
 		if ff, tf := s.Levels[from].Flavour, s.Levels[target].Flavour; ff != "" || tf != "" {
 			switch {
@@ -775,8 +794,14 @@ func describe(s *Sess, op Op) string {
 	case "acquire":
 		return "AcquirePriv(" + lvl + ")"
 	case "command":
+		if op.Level >= 0 || op.Unknown != "" {
+			return fmt.Sprintf("SendCommand(%q, WithPrivilegeLevel of %s)", op.Lines[0], lvl)
+		}
 		return fmt.Sprintf("SendCommand(%q)", op.Lines[0])
 	case "commands":
+		if op.Level >= 0 || op.Unknown != "" {
+			return fmt.Sprintf("SendCommands(%q, WithPrivilegeLevel of %s)", op.Lines, lvl)
+		}
 		return fmt.Sprintf("SendCommands(%q)", op.Lines)
 	case "config":
 		return fmt.Sprintf("SendConfig(%q, %s)", strings.Join(op.Lines, "\n"), lvl)
@@ -816,7 +841,10 @@ func init() {
 			"(the level's own de-escalate, a child's escalate on a non-asking edge), so the device legitimately changes mode behind the cached level; the reference tracks the true mode through payload lines; " +
 			"the following call targets the level the driver still believes in with probability 0.6. Same-labels-different-shape family (30 quick / 300 thorough): 2-3 driver objects in ONE process over level sets with identical names and patterns but different trees " +
 			"(re-parented leaf, swapped labels, chain vs star), each with its own device, run one after the other or alive at the same time, each judged against its own tree; and (20 / 200) single sessions that re-parent a level " +
-			"(device and driver level definition) and call UpdatePrivileges mid-session. Flavour family (40 / 400): trees with 2-3 sibling leaf levels that share one prompt and pattern (different escalate commands, each de-escalating to the common parent) and sequences " +
+			"(device and driver level definition) and call UpdatePrivileges mid-session. Change-window family (40 / 400): trees with the sibling levels configuration / configuration-exclusive / configuration-private (own prompts or one shared prompt); one option list " +
+			"{WithPrivilegeLevel(L)} shared between config and command calls: SendCommand(s) carrying the level option (known or unknown level; it has no meaning for them, they must run at the default desired level) as first call " +
+			"of a session and right after SendConfig(s)/AcquirePriv/SendInteractive, and SendConfig(s) without a level back to back after calls at another flavour (must go to \"configuration\"). " +
+			"Flavour family (40 / 400): trees with 2-3 sibling leaf levels that share one prompt and pattern (different escalate commands, each de-escalating to the common parent) and sequences " +
 			"that keep moving between them through AcquirePriv / SendConfig(s) default and WithPrivilegeLevel / SendInteractive / SendCommand(s); the device's own mode decides. " +
 			"Non-trivial = a call that moves between two flavours with the same prompt, or a call whose path differs from the path between the same labels in the other tree, or a judged call after a payload-induced move, or a call whose tree path has >=2 steps, or that crosses an edge on which the device asked for the secret, or a hop whose reaction was really held back, or a SendCommand(s) call (the operations that consult the cached level) " +
 			"issued while the cached level differs from the device's mode. Distinct = distinct descriptor hash.",
